@@ -272,7 +272,11 @@ class ExternalVariableCollector(NodeVisitor):
 
 
 def _declared_global(tree):
-    """Names that the function declares global in its own scope."""
+    """Names declared global by the code that the function itself runs.
+
+    That is its own body and the bodies of the classes defined in it (they
+    run as part of the call), not those of inner functions.
+    """
     names = set()
     todo = list(tree.body)
     while todo:
@@ -280,8 +284,7 @@ def _declared_global(tree):
         if isinstance(node, ast.Global):
             names.update(node.names)
         elif not isinstance(
-            node,
-            (ast.FunctionDef, ast.AsyncFunctionDef, ast.ClassDef, ast.Lambda),
+            node, (ast.FunctionDef, ast.AsyncFunctionDef, ast.Lambda)
         ):
             todo.extend(ast.iter_child_nodes(node))
     return names
